@@ -1,6 +1,7 @@
 #![allow(dead_code, unused_assignments, unused_mut)]
 //! simcheck: seeded deterministic-simulation checks for repe-rs. See /verif/DESIGN.md.
 
+mod codec;
 mod families;
 mod framework;
 mod lin;
